@@ -463,6 +463,59 @@ func (fc *FnCtx) autoCandidates(fr *Frame, h *ssa.BasicBlock, p *ssa.Phi) []auto
 		return nil
 	}
 	initV := init
+	// upper/lower bounds from loop guards: phi (or phi±c) compared with a loop-invariant value
+	if step > 0 {
+		seenB := map[ssa.Value]bool{}
+		for blk := range body {
+			for _, ins := range blk.Instrs {
+				iff, ok := ins.(*ssa.If)
+				if !ok {
+					continue
+				}
+				bo, ok := iff.Cond.(*ssa.BinOp)
+				if !ok || (bo.Op.String() != "<" && bo.Op.String() != "<=") {
+					continue
+				}
+				x := bo.X
+				if xb, ok := x.(*ssa.BinOp); ok && xb.X == ssa.Value(p) {
+					if _, isC := xb.Y.(*ssa.Const); isC {
+						x = xb.X
+					}
+				}
+				if x != ssa.Value(p) {
+					continue
+				}
+				bnd := bo.Y
+				if bi, ok := bnd.(ssa.Instruction); ok && body[bi.Block()] {
+					continue
+				}
+				if seenB[bnd] {
+					continue
+				}
+				seenB[bnd] = true
+				bv := bnd
+				for _, strict := range []bool{true, false} {
+					strict := strict
+					key := "below-guard"
+					if !strict {
+						key = "at-most-guard"
+					}
+					out = append(out, autoCand{key + "(" + bv.Name() + ")", func(fc *FnCtx, fr *Frame, st *State, phi Val) string {
+						iv, ok1 := fc.tryValue(fr, st, initV)
+						b, ok2 := fc.tryValue(fr, st, bv)
+						if !ok1 || !ok2 || b.K != KInt {
+							return ""
+						}
+						op := "<="
+						if strict {
+							op = "<"
+						}
+						return tOr(sx("<=", phi.S, iv.S), sx(op, phi.S, b.S))
+					}})
+				}
+			}
+		}
+	}
 	if step > 0 {
 		out = append(out, autoCand{"lower-bound", func(fc *FnCtx, fr *Frame, st *State, phi Val) string {
 			iv, ok := fc.tryValue(fr, st, initV)
